@@ -407,6 +407,9 @@ class C16(SamplerProp):
     MUTANTS = {
         'partner_descriptor_kept': {'sample': ("        molecule.nodes[correspondence[target_node]]['bonding'].remove(compl_bonding)\n", "")},
         'dollar_any_order': {'cgsmiles_utils': ("            if descriptor[0] == '$' and descriptor[-1] == bonding_descriptor[-1]:", "            if descriptor[0] == '$':")},
+        'fragid_offset_reset': {'graph_utils': (
+            "        fragment_offset = max(source_graph.nodes[last_node_idx].get('fragid', [0])) + 1",
+            "        fragment_offset = max(source_graph.nodes[last_node_idx].get('fragid', [0])) + (1 if len(source_graph) < 6 else 0)")},
         'template_shared': {'graph_utils': ("        new_atom = copy.deepcopy(target_graph.nodes[node])", "        new_atom = dict(target_graph.nodes[node])")},
     }
 
